@@ -7,7 +7,48 @@ COMMON_TB = [
     "Go strconv/strings/sort/map semantics and third-party modules are modelled or treated as oracles, not verified",
 ]
 
+F64_TB = [
+    "software binary64 (lean/SpatialId/F64.lean: round-to-nearest-even on dyadic rationals, subnormals, no NaN/Inf/-0) is "
+    "what amd64 hardware and the Go compiler do for + - * / floor ceil (no FMA fusion on amd64); validated by the f64 op family",
+    "transcendental sub-expressions (math.Log/Tan/Cos/Atan/Sinh) are oracle values: the harness evaluates the same Go "
+    "expression and hands the value to the model; their accuracy is compared with glibc (Lean Float) inside a band, not proved",
+]
+
 PROPS = {
+    "C01": dict(
+        modules=["SpatialId.Props.C01"],
+        families=[("newpt", 10000, 80000), ("points", 30000, 250000), ("f64", 20000, 200000)],
+        trusted_base=COMMON_TB + F64_TB,
+        assumptions=["multiplication/division by 2^k is modelled as exponent adjustment (IEEE 754 exactness)"],
+        claim="Theorems (Props/C01.lean) about the bit-exact binary64 model: f = floor of the exact dyadic alt*2^v/2^25 for every "
+              "altitude that does not underflow, at every zoom and both signs (f_exact, f_neg: floor not truncation); "
+              "0 <= x < 2^h for every accepted longitude (x_range); y = floor(u*2^h/2) and 0 <= y < 2^h for every oracle value u "
+              "in [0,2) (y_formula, y_range); the indices of the formulas name the unique voxel of R^3 containing the point "
+              "(names_containing_voxel); list length/order, nil and zoom errors; kernel-evaluated tables for lon = 180, "
+              "nextafter(180,0) and tile boundaries at all 36 zooms. The model equals the Go code bit for bit on generated "
+              "points (domain edges, tile/cell boundaries +-2 ulp, subnormals). The exact-rational x and f and an independent "
+              "libm for y are checked on every case.",
+        note="partial: x is proved in range, not proved equal to the exact floor (binary64 rounding, known finding D16); y depends "
+             "on libm (oracle, band 2^-44 on u against glibc); f underflow is known finding D11; D10 repaired by a fix: commit.",
+        technique="Lean 4 theorems over a bit-exact software-binary64 model + differential correspondence + exact-rational checker",
+    ),
+    "C02": dict(
+        modules=["SpatialId.Props.C02"],
+        families=[("geom", 20000, 150000), ("ctrrt", 10000, 100000), ("f64", 10000, 100000)],
+        trusted_base=COMMON_TB + F64_TB,
+        assumptions=["row latitudes RadianToDegree(atan(sinh(pi(1-2k/2^h)))) are oracle values evaluated by the same Go expression"],
+        claim="Theorems (Props/C02.lean) about the bit-exact binary64 model: altitude edges are exactly f*2^(25-v) and "
+              "longitude edges exactly 360x/2^h-180 (no rounding); the top of f is identical to the bottom of f+1, the east edge "
+              "of x identical to the west edge of x+1, the south latitude of row y identical to the north latitude of row y+1 "
+              "for every oracle; corner order NW,NE,SE,SW bottom then top; every point of R^3 lies in exactly one voxel per "
+              "zoom pair (tiling); option/format errors, result sizes, no panic. The model equals the Go code bit for bit "
+              "(all 8 vertices and the centre, both ID forms, wrap/clamp of out-of-range indices); the centre round trip is "
+              "evaluated on the implementation on every generated ID.",
+        note="partial: latitudes come from libm (oracle); the centre round trip (all three axes) is checked on the "
+             "implementation, not proved.",
+        technique="Lean 4 theorems over a bit-exact software-binary64 model + differential correspondence with the Go code",
+    ),
+
     "C07": dict(
         modules=["SpatialId.Props.C07"],
         families=[("shift", 20000, 150000), ("shift2", 8000, 60000)],
@@ -86,6 +127,19 @@ PROPS = {
         note="Lean kernel + propext/Classical.choice/Quot.sound; model tied by sampling; the model parses the ID once "
              "where Go re-parses printed IDs (strconv round trip trusted). D13 repaired by a fix: commit.",
         technique="Lean 4 theorems over an executable model + differential correspondence with the Go code",
+    ),
+    "C09": dict(
+        modules=["SpatialId.Props.C09"],
+        families=[("nest", 20000, 150000), ("zio", 3000, 20000), ("mrgkids", 3000, 20000), ("ovkids", 3000, 20000)],
+        trusted_base=COMMON_TB + F64_TB,
+        assumptions=["the binary64 quotient (lon+180)/360 has at most 53 significant bits (true of every hardware double)"],
+        claim="Theorems (Props/C09.lean): on the bit-exact binary64 point model the f, y and x index (clamp included) at a coarser "
+              "zoom equal the floor zoom-out of the index at any finer zoom (pt_nested_f/y/x), which is what VerticalZoom "
+              "returns; nested voxels are reported as overlapping; zooming an ID in and back out returns exactly that ID; "
+              "merging the complete set of descendants returns exactly that ID (zoomIn_out_id, merge_children, from C03/C04). "
+              "The same composites are evaluated on the real code (nest, zio, mrgkids, ovkids) and compared exactly.",
+        note="corollaries of C01/C03/C04/C05; y relative to the libm oracle; defects D1, D2 repaired by fix: commits.",
+        technique="Lean 4 theorems (corollaries over the executable models) + composite differential checks on the Go code",
     ),
     "C10": dict(
         modules=["SpatialId.Props.C10"],
@@ -169,4 +223,6 @@ NOT_APPLICABLE = {}
 
 # predicates of known_findings.json entries: (fields of the case line, detail from the driver, params) -> bool
 KNOWN_PREDICATES = {
+    # the driver's property checker tags the failure; the finding matches only its own tag
+    "detail_prefix": lambda fields, detail, params: detail.startswith(params["prefix"]),
 }
